@@ -161,6 +161,16 @@ impl EventParser {
                         events,
                         symbols,
                     );
+                    // let Some(x) = value else { app.emit(..); return; };
+                    if let Some((_, diverge)) = &init.diverge {
+                        self.extract_events_from_expr(
+                            diverge,
+                            file_path,
+                            type_resolver,
+                            events,
+                            symbols,
+                        );
+                    }
                 }
             }
             _ => {}
@@ -263,6 +273,14 @@ impl EventParser {
                 );
             }
             Expr::If(expr_if) => {
+                // if app.emit(..).is_err() { .. } / if let Err(e) = app.emit(..) { .. }
+                self.extract_events_from_expr(
+                    &expr_if.cond,
+                    file_path,
+                    type_resolver,
+                    events,
+                    symbols,
+                );
                 self.extract_events_from_block(
                     &expr_if.then_branch.stmts,
                     file_path,
@@ -281,6 +299,14 @@ impl EventParser {
                 }
             }
             Expr::Match(expr_match) => {
+                // match app.emit(..) { .. }
+                self.extract_events_from_expr(
+                    &expr_match.expr,
+                    file_path,
+                    type_resolver,
+                    events,
+                    symbols,
+                );
                 for arm in &expr_match.arms {
                     self.extract_events_from_expr(
                         &arm.body,
@@ -301,6 +327,13 @@ impl EventParser {
                 );
             }
             Expr::While(expr_while) => {
+                self.extract_events_from_expr(
+                    &expr_while.cond,
+                    file_path,
+                    type_resolver,
+                    events,
+                    symbols,
+                );
                 self.extract_events_from_block(
                     &expr_while.body.stmts,
                     file_path,
@@ -379,6 +412,88 @@ impl EventParser {
                     events,
                     symbols,
                 );
+            }
+            // An emit whose result is used instead of dropped: the value of a `let` pattern
+            // (if let Err(e) = app.emit(..)), of return / break, an operand, an assignment,
+            // an element of a tuple or array
+            Expr::Let(expr_let) => {
+                self.extract_events_from_expr(
+                    &expr_let.expr,
+                    file_path,
+                    type_resolver,
+                    events,
+                    symbols,
+                );
+            }
+            Expr::Return(expr_return) => {
+                if let Some(value) = &expr_return.expr {
+                    self.extract_events_from_expr(value, file_path, type_resolver, events, symbols);
+                }
+            }
+            Expr::Break(expr_break) => {
+                if let Some(value) = &expr_break.expr {
+                    self.extract_events_from_expr(value, file_path, type_resolver, events, symbols);
+                }
+            }
+            Expr::Binary(expr_binary) => {
+                for operand in [&expr_binary.left, &expr_binary.right] {
+                    self.extract_events_from_expr(
+                        operand,
+                        file_path,
+                        type_resolver,
+                        events,
+                        symbols,
+                    );
+                }
+            }
+            Expr::Assign(expr_assign) => {
+                self.extract_events_from_expr(
+                    &expr_assign.right,
+                    file_path,
+                    type_resolver,
+                    events,
+                    symbols,
+                );
+            }
+            Expr::Unary(expr_unary) => {
+                self.extract_events_from_expr(
+                    &expr_unary.expr,
+                    file_path,
+                    type_resolver,
+                    events,
+                    symbols,
+                );
+            }
+            Expr::Reference(expr_reference) => {
+                self.extract_events_from_expr(
+                    &expr_reference.expr,
+                    file_path,
+                    type_resolver,
+                    events,
+                    symbols,
+                );
+            }
+            Expr::Tuple(expr_tuple) => {
+                for element in &expr_tuple.elems {
+                    self.extract_events_from_expr(
+                        element,
+                        file_path,
+                        type_resolver,
+                        events,
+                        symbols,
+                    );
+                }
+            }
+            Expr::Array(expr_array) => {
+                for element in &expr_array.elems {
+                    self.extract_events_from_expr(
+                        element,
+                        file_path,
+                        type_resolver,
+                        events,
+                        symbols,
+                    );
+                }
             }
             _ => {}
         }
